@@ -516,7 +516,10 @@ class World:
             ans1 = ops.normalise(*out1)
             self.stats.inc("oracle:t1")
             if lossless:
-                same = ans1[1] == ans[1]
+                # str / repr list the distinct vertex *objects*; a deep copy re-shares junction
+                # points that a degree-reduced segment had left unshared, so the texts may differ
+                # although every value is equal: not one of the answers C10 speaks about
+                same = ans1[1] == ans[1] or op in ("str", "repr")
                 if same and op not in ("plot",):
                     for n in dict.fromkeys(names):
                         if model.bits(twins1[n]) != post_bits[n]:
